@@ -21,11 +21,12 @@ from vmon.props import c12
 
 LEVEL = "exploration"
 SHARDS = {"quick": 16, "thorough": 16}
-MUST = ["streams", "options.combos_seen", "solo.packets", "solo.unrecognized", "solo.flagged", "interleavings.exhaustive",
+MUST = ["streams", "options.combos_seen", "solo.packets", "solo.unrecognized", "solo.flagged", "solo.framed_object_parses", "interleavings.exhaustive",
         "interleavings.random", "interleavings.threads", "interleave.segmented", "immutability.snapshots", "setattr.monitored_classes"]
 RULE = ("(a) streams of 5-40 generated packets mixing several APIDs x {recognised, unrecognised (dead end / ambiguous), "
         "longer than consumed, shorter than consumed} under all 8 combinations of parse_bad_pkts, "
-        "yield_unrecognized_packet_errors, ccsds_headers_only: yielded items == per-packet solo results in stream order; "
+        "yield_unrecognized_packet_errors, ccsds_headers_only: yielded items == per-packet solo results in stream order "
+        "(solo = fresh packet from the bytes, and also the framer's own raw packet objects each wrapped and parsed twice); "
         "(b) schedules: ALL 1680 interleavings of 3 generators x 3 items, round-robin and seeded random schedules for 2-6 "
         "generators x up to 40 items, 4 real threads each owning a generator over the shared definition with "
         "sys.setswitchinterval(1e-6); (c) deep snapshot + to_xml bytes before/after and a __setattr__ write log. "
@@ -179,10 +180,15 @@ def synth_plain(v):
     return v
 
 
-def solo_result(defn, raw):
-    """parse one packet on its own: ('packet', summary, flagged) | ('error', summary) | ('exception', class)"""
+def solo_result(defn, raw, raw_object=None):
+    """parse one packet on its own: ('packet', summary, flagged) | ('error', summary) | ('exception', class).
+    raw_object: a RawPacketData object (e.g. one the framer yielded, possibly parsed before) to wrap instead of fresh bytes"""
     from space_packet_parser import exceptions as X
-    step, pkt = harness.parse_single(defn, raw)
+    if raw_object is None:
+        step, pkt = harness.parse_single(defn, raw)
+    else:
+        from space_packet_parser import packets as P
+        step = monitored(lambda: defn.parse_ccsds_packet(P.CCSDSPacket(raw_data=raw_object)))
     if isinstance(step.exc, X.UnrecognizedPacketTypeError):
         return ("error", plain_item(step.exc))
     if step.exc is not None:
@@ -247,6 +253,20 @@ def check_streams(ctx, d):
         return defn
     stream = b"".join(raws)
     outs = [ref.walk(doc, r) for r in raws]
+    # "parsing each packet on its own" must not depend on which packet object carries the bytes: the raw packets the
+    # framer itself yields, each wrapped and parsed twice (a second definition, a second option set, a retry)
+    from space_packet_parser import packets as P
+    framed = monitored(lambda: list(P.ccsds_generator(stream)))
+    if framed.exc is None and [bytes(f) for f in framed.value] == raws:
+        for rnd in range(2):
+            for k, (f, s0) in enumerate(zip(framed.value, solos)):
+                s1 = solo_result(defn, raws[k], raw_object=f)
+                ctx.count("solo.framed_object_parses")
+                if s1 != s0:
+                    ctx.violation(f"solo-differs/framed-raw-object/parse{rnd + 1}/{s0[0]}->{s1[0]}",
+                                  f"packet {k} parsed on its own from the framer's raw packet object (parse #{rnd + 1} of that object) gives "
+                                  f"{s1[0]} but {s0[0]} from fresh bytes", {"doc": d, "index": k, "fresh": s0, "framed_object": s1})
+                    break
     mix = "".join(sorted({c[0] for c in classes}))
     for parse_bad, yield_unrec, headers_only in itertools.product((True, False), repeat=3):
         with Immut(ctx, defn, "packet_generator"):
